@@ -1,0 +1,19 @@
+//go:build verif
+
+package parser
+
+import "sync/atomic"
+
+// Verification hooks (build tag verif): counts scanner reads. VerifScanBudget > 0
+// makes a parse that exceeds it panic, so that a spinning scanner is a
+// deterministic event instead of a hang.
+
+var VerifScanSteps int64
+var VerifScanBudget int64
+
+func vhScan() {
+	n := atomic.AddInt64(&VerifScanSteps, 1)
+	if b := atomic.LoadInt64(&VerifScanBudget); b > 0 && n > b {
+		panic("verif: scanner step budget exceeded")
+	}
+}
